@@ -3,7 +3,7 @@ import json, os
 
 from .common import VERIF
 
-HOOK_COMMITS = []
+HOOK_COMMITS = ["cbda835", "abe77a7"]
 
 TCB = "TLC evaluating the specification; the harness (vh) as recorder/printer; bounds stated in evidence"
 
@@ -54,6 +54,13 @@ CHECKS = {
                      "template up to the bound; recorded outputs of all public expansion entry points, check() and escape() are recomputed by TLC (TraceExpand).",
                 note="Template alphabet of 14 symbols; exhaustive to length 3 (quick) / 4 (thorough), longer templates sampled; three capture fixtures. " + TCB,
                 technique="TLC model checking of the scanner + trace validation of recorded expansions"),
+    "C13": dict(level="model_checking", ref="6 C13",
+                text="The real per-node size facts (hook) of every pattern are checked by TLC for SOUNDNESS against all lengths RefSem can witness for the node "
+                     "(all texts x positions x assignments of referenced groups); the look-behind compile decision is checked against witnessed arm lengths; "
+                     "the mirror Analyze.tla is checked the same way (model) and its drift from the code is reported; accepted look-behinds are validated "
+                     "behaviourally on multi-byte texts (rows).",
+                note="Soundness is refutable, not provable, by enumeration: texts over {a,b} up to length 3 for lengths, 1-4 byte alphabet for behaviour. " + TCB,
+                technique="trace validation of hook-exposed analysis facts against lengths enumerated by TLC from the TLA+ reference semantics"),
     "C14": dict(level="model_checking", ref="6 C14",
                 text="Options.tla states case_insensitive(true) as the transformation ApplyCasei of the pattern; rows recorded from four builds of every pattern "
                      "(builder option, (?i) prefix, no option, option off) are validated by TLC against RefSem of the transformed / untransformed AST; size-limit "
@@ -77,6 +84,13 @@ CHECKS = {
                      "the lemma Search(LitSeq(s)) = str::find is checked by TLC on the same cases.",
                 note="Exhaustive to length 2 (quick) / 3 (thorough) over 24 symbols incl. all specials and 2-4 byte characters; longer strings sampled. " + TCB,
                 technique="TLA+ model of escape + trace validation of recorded escapes and searches"),
+    "C20": dict(level="model_checking", ref="6 C20",
+                text="SaveLogOps.tla transcribes vm.rs::State operation by operation next to the whole-state-copy model; TLC checks the refinement invariant over ALL "
+                     "operation sequences up to the bound; every history TLC generated (one per reached state) and long simulated histories are replayed into the "
+                     "REAL State through the hook wrapper and TLC compares the observable state after every single operation with the abstract model.",
+                note="Bounds: 2 slots x 2 values (quick) / 3 x 3 (thorough), branch depth 3, explicit-stack depth 2, sequence length 5-8; simulated histories of length 40. "
+                     "Program-level replay on real regex runs is provided by the VM trace validation of C05/C07. " + TCB,
+                technique="TLC refinement check of the undo log + replay of TLC-generated histories into the real State with per-step comparison"),
 }
 
 NOT_YET = {
